@@ -10,7 +10,7 @@ from vfacts import strip, walk, is_node, must_pass_through, known_facts
 
 RULE = 'NULLPARAM'
 FLOOR = 17
-ANCHORS = ['ExplicitTreeAutCore::Intersection', 'ExplicitFiniteAutCore::Union', 'BDDBUTreeAutCore::Intersection']
+ANCHORS = []   # optional pointers are re-bound to references by refactorings (refactor/A-4, F-3); health is judged by the floor
 
 
 def is_null(e):
